@@ -92,7 +92,7 @@ of every `extends` value — once the fuel exceeds the number of `(file, service
 theorem extends_terminates (fs : Ext.FS) (main : String) (svcs : Ext.Services) (name : String) (fuel : Nat)
     (hf : (Ext.refUniverse fs main svcs).length < fuel) :
     (Ext.resolve fs main fuel svcs name []).1 ≠ .outOfFuel :=
-  (Ext.resolve_ne_fuel fs main svcs fuel svcs name [] (Ext.inv_self fs main svcs) List.nodup_nil
+  (Ext.resolve_ne_fuel fs main svcs fuel main svcs name [] (List.mem_cons_self ..) (Ext.inv_self fs main svcs) List.nodup_nil
     (by intro r hr; cases hr) (by simpa using hf)).1
 
 /-- … and so does `ApplyExtends`, in whatever order Go ranges over the services map -/
@@ -106,7 +106,7 @@ into a cycle) is reported as "Circular reference", from any starting tracker -/
 theorem extends_cycle_err (fs : Ext.FS) (main : String) (svcs : Ext.Services) (name : String) (fuel : Nat)
     (hcyc : Ext.Forever fs main (svcs, name)) (hf : (Ext.refUniverse fs main svcs).length < fuel) :
     (Ext.resolve fs main fuel svcs name []).1 = .err "circular" := by
-  rcases Ext.resolve_forever fs main fuel svcs name [] hcyc with h | h
+  rcases Ext.resolve_forever fs fuel main svcs name [] hcyc with h | h
   · exact absurd h (extends_terminates fs main svcs name fuel hf)
   · exact h
 
